@@ -586,8 +586,34 @@ func nativeReplay(sel []*Harness, files []string) map[string]string {
 	ov, _ := json.Marshal(map[string]interface{}{"Replace": ofm})
 	ovPath := filepath.Join(tmp, "overlay.json")
 	os.WriteFile(ovPath, ov, 0o644)
+	// memory-safety counterexamples are replayed one per process under -d=checkptr (a checkptr failure is fatal)
+	type job struct {
+		pkg      string
+		files    []string
+		checkptr bool
+	}
+	var jobs []job
 	for p, fs := range byPkg {
-		cmd := exec.Command("go", "test", "-vet=off", "-count=1", "-tags", "verif", "-v", "-run", "^TestVerifReplay$", "-overlay", ovPath, "-timeout", "600s", ".")
+		var normal []string
+		for _, f := range fs {
+			if strings.Contains(filepath.Base(f), "unsafe_deref_in_bounds") {
+				jobs = append(jobs, job{p, []string{f}, true})
+			} else {
+				normal = append(normal, f)
+			}
+		}
+		if len(normal) > 0 {
+			jobs = append(jobs, job{p, normal, false})
+		}
+	}
+	for _, jb := range jobs {
+		p, fs := jb.pkg, jb.files
+		args := []string{"test", "-vet=off", "-count=1", "-tags", "verif", "-v", "-run", "^TestVerifReplay$", "-overlay", ovPath, "-timeout", "600s"}
+		if jb.checkptr {
+			args = append(args, "-gcflags=all=-d=checkptr")
+		}
+		args = append(args, ".")
+		cmd := exec.Command("go", args...)
 		cmd.Dir = filepath.Join(repoDir, p)
 		env := []string{}
 		for _, kv := range os.Environ() {
@@ -602,7 +628,14 @@ func nativeReplay(sel []*Harness, files []string) map[string]string {
 		cmd.Env = env
 		outb, _ := cmd.CombinedOutput()
 		out := string(outb)
-		os.WriteFile(filepath.Join(filepath.Dir(fs[0]), "native_replay_"+sanitize(p)+".log"), outb, 0o644)
+		logf, _ := os.OpenFile(filepath.Join(filepath.Dir(fs[0]), "native_replay_"+sanitize(p)+".log"), os.O_APPEND|os.O_CREATE|os.O_WRONLY, 0o644)
+		if logf != nil {
+			logf.Write(outb)
+			logf.Close()
+		}
+		if jb.checkptr && strings.Contains(out, "fatal error: checkptr") {
+			res[fs[0]] = "confirmed"
+		}
 		for _, line := range strings.Split(out, "\n") {
 			line = strings.TrimSpace(line)
 			if i := strings.Index(line, "VERIF-REPLAY-RESULT "); i >= 0 {
